@@ -371,3 +371,150 @@ def dump_failure_keeps_headers(crate, L=3):
         P.cover(ex, res, o, z3.And(isok, present0), "dump succeeded")
         P.cover(ex, res, o, z3.And(isok, z3.Not(nonempty)), "empty index: nothing dumped")
     return P.finish(ex, res, ["dump failed with headers present", "dump succeeded", "empty index: nothing dumped"])
+
+
+def filter_offsets_agree(crate):
+    """C10: the bloom buffer position recorded for on-file probing is where the bloom bytes really are:
+    serialize_filters returns 8 + len(range bytes) and lays the section out as [range_len u64 | range | bloom];
+    deserialize_filters hands Bloom::from_raw exactly the bytes from 8 + range_len on and returns that same offset.
+    (read_byte adds this offset to the index inside the bloom image.)"""
+    from .ob_record import BYTES_SUMMARIES, mk_buf, _buf
+    res = P.ObResult("filter_offsets_agree")
+    de = crate.method("IndexStruct", "deserialize_filters")
+    se = crate.method("IndexStruct", "serialize_filters")
+    res.functions = ["IndexStruct::deserialize_filters", "IndexStruct::serialize_filters"]
+    res.bounds = "arbitrary section length / range length (< 2^32), every outcome of the decoders"
+
+    def h_split_at(ex_, st_, frame, t, nf, args, dty):
+        b = S.deref_val(ex_, st_, args[0])
+        if not (isinstance(b, Obj) and ("g", "len") in b.fields):
+            raise Unsupported("split_at on an unmodelled slice")
+        at = args[1].t
+        ln, off = b.fields[("g", "len")].t, b.fields[("g", "off")].t
+        a, c = mk_buf(at, off), mk_buf(ln - at, off + at)
+        tup = Obj(dty)
+        tup.fields[(None, 0)] = Ref(st_.new_cell(a), (), False, "&[u8]")
+        tup.fields[(None, 1)] = Ref(st_.new_cell(c), (), False, "&[u8]")
+        inb = z3.ULE(at, ln)
+        return [(tup, inb), (("panic", "split_at out of bounds"), z3.Not(inb))]
+
+    def h_slice_len(ex_, st_, frame, t, nf, args, dty):
+        b = S.deref_val(ex_, st_, args[0])
+        if isinstance(b, Obj) and ("g", "len") in b.fields:
+            return [(b.fields[("g", "len")], None)]
+        return S.h_vec_len(ex_, st_, frame, t, nf, args, dty)
+
+    extra = [(r"^core::slice::(<impl[^>]*>::)?split_at$", h_split_at), (r"^core::slice::(<impl[^>]*>::)?len$", h_slice_len)] + BYTES_SUMMARIES
+    # ---- decoder
+    ex = P.mk_executor(crate, cap=2, loop_bound=4, inline=[], extra_summaries=extra)
+    range_size = z3.BitVec("range_size", 64)
+
+    def de_ser(ex_, st_, frame, t, nf, args, dty):
+        r = S.ok(Sym(range_size, "usize"), dty)
+        okv = z3.Bool("range_size_parses")
+        r.discr = Sym(z3.If(okv, BV64(0), BV64(1)), "isize")
+        st_.events.append(("call", "bincode::deserialize", [S.deref_val(ex_, st_, args[0])], r))
+        return [(r, None)]
+    ex.summaries.insert(0, (re.compile(r"^bincode::deserialize$"), de_ser))
+    st = State()
+    total = z3.BitVec("section_len", 64)
+    st.pc.append(z3.And(z3.ULT(total, BV64(1 << 32)), z3.ULT(range_size, BV64(1 << 32))))
+    buf = mk_buf(total, BV64(0))
+    bc = st.new_cell(buf)
+    ex.push_frame(st, de, [Ref(bc, (), False, "&[u8]")], None, None)
+    outs = ex.run(st)
+    res.paths = len(outs)
+    ok_all = True
+    for o in outs:
+        if o.status in ("infeasible", "unwind"):
+            continue
+        if o.status == "panic":
+            # split_at panics on a too-short section: the caller (from_file) would have failed validation earlier; record only
+            P.cover(ex, res, o, z3.BoolVal(True), "section too short (panic in split_at)")
+            continue
+        if o.status != "returned":
+            continue
+        isok = ex.get_discr(o, o.result).t == BV64(0)
+        evs = [e for e in o.events if e[0] == "call"]
+        blooms = [e for e in evs if "Bloom::from_raw" in e[1]]
+        if not blooms:
+            if not P.prove(ex, res, o, z3.Not(isok), "Ok => the bloom image was decoded"):
+                ok_all = False
+                break
+            continue
+        bb = S.deref_val(ex, o, blooms[0][2][0])
+        if not (isinstance(bb, Obj) and ("g", "off") in bb.fields):
+            res.status = "violated"; res.detail = "bloom decoder is not given a sub-slice of the section"; ok_all = False; break
+        boff, blen = bb.fields[("g", "off")].t, bb.fields[("g", "len")].t
+        if not P.prove(ex, res, o, z3.And(boff == BV64(8) + range_size, boff + blen == total), "bloom image = section[8 + range_len ..]"):
+            ok_all = False
+            break
+        tup = o.result.fields.get(("Ok", 0))
+        if tup is not None:
+            ret_off = ex._get_field(o, tup, None, 2, "usize")
+            if not P.prove(ex, res, o, z3.Implies(isok, ret_off.t == boff), "returned bloom offset = where the bloom image starts"):
+                ok_all = False
+                break
+            P.cover(ex, res, o, z3.And(isok, z3.UGT(range_size, BV64(0))), "decoded, non-empty range part")
+    if ok_all and res.status == "holds":
+        # ---- encoder
+        ex2 = P.mk_executor(crate, cap=2, loop_bound=4, inline=[], extra_summaries=extra)
+        rl, bl = z3.BitVec("range_raw_len", 64), z3.BitVec("bloom_raw_len", 64)
+
+        def call_hook(ex_, st_, cname, args, dty):
+            if cname in ("RangeFilter::to_raw", "Bloom::to_raw"):
+                n = rl if cname.startswith("Range") else bl
+                v = VecV("u8", 1, Sym(n, "usize"), [None])
+                v.tagname = cname
+                r = S.ok(v, dty)
+                r.discr = Sym(z3.If(z3.Bool(cname + "_ok"), BV64(0), BV64(1)), "isize")
+                st_.events.append(("call", cname, args, r))
+                return [(r, None)]
+            return None
+        ex2.call_hook = call_hook
+        appended = []
+
+        def h_ext(ex_, st_, frame, t, nf, args, dty):
+            src = S.deref_val(ex_, st_, args[1])
+            st_.events.append(("append", getattr(src, "tagname", "other"), [src.len.t if isinstance(src, VecV) else None], None))
+            return [(UNIT, None)]
+
+        def h_ser(ex_, st_, frame, t, nf, args, dty):
+            v = VecV("u8", 1, Sym(BV64(8), "usize"), [None])
+            v.tagname = "range_len_prefix"
+            a = S.deref_val(ex_, st_, args[0])
+            st_.events.append(("call", "bincode::serialize", [a], None))
+            return [(S.ok(v, dty), None)]
+        ex2.summaries.insert(0, (re.compile(r"^Vec::extend_from_slice$"), h_ext))
+        ex2.summaries.insert(0, (re.compile(r"^bincode::serialize$"), h_ser))
+        st2 = State()
+        st2.pc.append(z3.And(z3.ULT(rl, BV64(1 << 32)), z3.ULT(bl, BV64(1 << 32))))
+        idxo = Obj("blob::index::core::IndexStruct<FileIndex, K>")
+        ic = st2.new_cell(idxo)
+        ex2.push_frame(st2, se, [Ref(ic, (), False, "&IndexStruct<FileIndex, K>")], None, None)
+        for o in ex2.run(st2):
+            if o.status != "returned":
+                if o.status not in ("infeasible", "unwind") and not P.prove(ex2, res, o, z3.BoolVal(False), "no panic in serialize_filters (%s)" % o.note):
+                    break
+                continue
+            isok = ex2.get_discr(o, o.result).t == BV64(0)
+            apps = [e[1] for e in o.events if e[0] == "append"]
+            if not P.prove(ex2, res, o, z3.Implies(isok, z3.BoolVal(apps == ["range_len_prefix", "RangeFilter::to_raw", "Bloom::to_raw"])),
+                           "section = [range_len | range | bloom] in this order"):
+                break
+            sers = [e for e in o.events if e[0] == "call" and e[1] == "bincode::serialize"]
+            if sers and isinstance(sers[0][2][0], Sym):
+                if not P.prove(ex2, res, o, z3.Implies(isok, sers[0][2][0].t == rl), "length prefix = length of the range bytes"):
+                    break
+            tup = o.result.fields.get(("Ok", 0))
+            if tup is not None:
+                off = ex2._get_field(o, tup, None, 1, "usize")
+                if not P.prove(ex2, res, o, z3.Implies(isok, off.t == BV64(8) + rl), "returned bloom offset = 8 + len(range bytes)"):
+                    break
+                P.cover(ex2, res, o, isok, "encoded")
+        res.paths += 1
+        ex.queries += ex2.queries
+        ex.solver_s += ex2.solver_s
+        for k in ("calls_summarised", "calls_havoc", "calls_inlined"):
+            ex.stats[k].update(ex2.stats[k])
+    return P.finish(ex, res, ["decoded, non-empty range part", "encoded"])
